@@ -127,27 +127,45 @@ def run(ck):
 
     # ---------------------------------------------------------------- R5
     fn = bm.func("bin_stream.getbytes")
-    gets = [c for c in walk_body(fn) if isinstance(c, ast.Call) and dotted(c.func) == "self._cache.get"]
-    sets = [n for n in walk_body(fn) if isinstance(n, ast.Assign) and isinstance(n.targets[0], ast.Subscript) and norm(n.targets[0].value) == "self._cache"]
+    from sa.astutil import Resolver as _Res
+    from sa.facts import guard_facts as _gf, truthy as _truthy
+    res5 = _Res(fn)
     p1, p2 = fn.args.args[1].arg, fn.args.args[2].arg
     key = "(%s, %s)" % (p1, p2)
-    ok = bool(gets) and bool(sets) and norm(gets[0].args[0]) == key and norm(sets[0].targets[0].slice) == key
-    ck.ob("R5", "getbytes:key", ok, bm.where(fn), "cache lookup key and fill key differ or are not (start, length)")
-    ok = bool(sets) and any(isinstance(n, ast.Assign) and norm(n.targets[0]) == norm(sets[0].value) and norm(n.value) == "self._getbytes(%s, %s)" % (p1, p2)
-                            for n in walk_body(fn))
-    ck.ob("R5", "getbytes:fill-from-source", ok, bm.where(fn), "the cached value is not the result of _getbytes(start, length)")
     cfg = CFG(fn)
-    rd = [nd for nd in cfg.nodes if any(dotted(c.func) == "self._getbytes" for c in node_calls(nd))]
-    cache_nodes = [nd for nd in cfg.nodes if any(dotted(c.func) == "self._cache.get" for c in node_calls(nd))]
-    ok = False
-    for t in cfg.nodes:
-        if t.kind == "test" and norm(t.ast) == "self._atomic_mode":
-            f_succ = [s for (s, l_) in cfg.succ[t.id] if l_ is False]
-            t_succ = [s for (s, l_) in cfg.succ[t.id] if l_ is True]
-            ok = bool(f_succ) and any(f_succ[0] == r.id for r in rd) and all(
-                not (f_succ[0] == c.id or cfg.can_reach(f_succ[0], c.id)) for c in cache_nodes) and \
-                all(t.id in cfg.dominators()[c.id] for c in cache_nodes)
-    ck.ob("R5", "getbytes:bypass", ok, bm.where(fn), "outside atomic mode getbytes must read the source directly and never touch the cache")
+    facts5 = _gf(cfg)
+    probes, stores, touching = [], [], []
+    for nd in cfg.nodes:
+        if nd.ast is None:
+            continue
+        hit = False
+        for e_ in ([nd.ast] if nd.kind in ("stmt", "test") else []):
+            for x in walk_local(e_):
+                if isinstance(x, ast.Call) and dotted(x.func) in ("self._cache.get", "self._cache.setdefault") and x.args:
+                    probes.append(x.args[0])
+                    hit = True
+                if isinstance(x, ast.Compare) and len(x.ops) == 1 and isinstance(x.ops[0], (ast.In, ast.NotIn)) and norm(x.comparators[0]) == "self._cache":
+                    probes.append(x.left)
+                    hit = True
+                if isinstance(x, ast.Subscript) and norm(x.value) == "self._cache":
+                    (stores if isinstance(x.ctx, ast.Store) else probes).append(x.slice)
+                    hit = True
+        if hit:
+            touching.append(nd)
+    keys_ok = bool(probes) and bool(stores) and all(norm(res5.expand_node(k)).replace(" ", "") == key.replace(" ", "") for k in probes + stores)
+    ck.ob("R5", "getbytes:key", keys_ok, bm.where(fn), "cache lookup key and fill key differ or are not (start, length): %s"
+          % sorted(set(norm(res5.expand_node(k)) for k in probes + stores)))
+    fills = [n for n in walk_body(fn) if isinstance(n, ast.Assign) and isinstance(n.targets[0], ast.Subscript) and norm(n.targets[0].value) == "self._cache"]
+    ok = bool(fills)
+    for n in fills:
+        v = n.value
+        vx = res5.expand_node(v)
+        direct = norm(vx) == "self._getbytes(%s, %s)" % (p1, p2)
+        via = isinstance(v, ast.Name) and any(norm(d) == "self._getbytes(%s, %s)" % (p1, p2) for d in res5.all_defs(v.id))
+        ok = ok and (direct or via)
+    ck.ob("R5", "getbytes:fill-from-source", ok, bm.where(fn), "the cached value is not the result of _getbytes(start, length)")
+    ok = bool(touching) and all(_truthy(facts5.get(nd.id, frozenset()), "self._atomic_mode") for nd in touching)
+    ck.ob("R5", "getbytes:bypass", ok, bm.where(fn), "the cache is consulted or filled on a path where atomic mode is not known to be on")
 
 
 def _offset_rules(ck):
